@@ -1247,6 +1247,9 @@ def run_ans_histories(depth):
                 fail("Python front end | AnsCoder.decode(family, parameter arrays) | does not return the two most recent pushes with their own models", f"history {hist}: expected {[ref[-1][0], ref[-2][0]]}, got {got}")
             else:
                 rec(c2, ref[:-2], init, hist + ["pop 2 with parameters"], d - 1)
+        if (ref or len(init)) and hist[-1] != "clear":
+            c2 = c.clone(); c2.clear()
+            rec(c2, [], np.array([], dtype=np.uint32), hist + ["clear"], d - 1)
         if hist and hist[-1] != "reload":
             w = c.get_compressed()
             counters["py_ans_history_reloads"] += 1
@@ -1338,6 +1341,12 @@ def run_range_histories(depth):
                 fail("Python front end | RangeEncoder.encode | a valid call raises", f"history {hist + [name]}: {type(e).__name__}: {str(e)[:120]}")
                 continue
             rec(e2, segs + [(form, syms, ks)], hist + [name], d - 1)
+        # clear(): an encoder that was used (also one that is holding back words for a carry) becomes a fresh one
+        if segs and hist[-1] != "clear":
+            e2 = enc.clone(); e2.clear()
+            if not e2.is_empty() or len(e2.get_compressed()):
+                fail("Python front end | RangeEncoder.clear | the encoder is not empty afterwards", f"history {hist}")
+            rec(e2, [], hist + ["clear"], d - 1)
     with Quiet():
         rec(RENC(), [], [], depth)
     return counters["py_range_history_nodes"], failures, counters
